@@ -57,11 +57,44 @@ def encodeMsg (m : SpecMsg) : Bytes :=
 
 end Spec
 
-/-- The messages the format can carry. -/
-def SpecMsg.valid (m : SpecMsg) : Bool :=
+namespace Spec
+
+/-- The header fields the specification defines and the type each must have ("Header Fields" table):
+1 PATH OBJECT_PATH, 2 INTERFACE STRING, 3 MEMBER STRING, 4 ERROR_NAME STRING, 5 REPLY_SERIAL UINT32,
+6 DESTINATION STRING, 7 SENDER STRING, 8 SIGNATURE SIGNATURE, 9 UNIX_FDS UINT32.  Other codes: no constraint
+("must be accepted and ignored"). -/
+def fieldType : Nat → Option Basic
+  | 1 => some .o | 2 => some .s | 3 => some .s | 4 => some .s | 5 => some .u
+  | 6 => some .s | 7 => some .s | 8 => some .g | 9 => some .u
+  | _ => none
+
+/-- The header fields each message type requires: METHOD_CALL PATH, MEMBER; METHOD_RETURN REPLY_SERIAL;
+ERROR ERROR_NAME, REPLY_SERIAL; SIGNAL PATH, INTERFACE, MEMBER. -/
+def requiredCodes : Nat → List Nat
+  | 1 => [1, 3] | 2 => [5] | 3 => [4, 5] | 4 => [1, 2, 3]
+  | _ => []
+
+end Spec
+
+/-- Sizes and well-formed values: what the layout needs. -/
+def SpecMsg.sized (m : SpecMsg) : Bool :=
   decide (1 ≤ m.mtype ∧ m.mtype ≤ 4) && decide (m.flags < 8) && decide (1 ≤ m.serial ∧ m.serial < 4294967296)
     && m.fields.all Field.wf && decide ((Spec.fieldArray m).length ≤ Spec.maxArray)
     && decide ((Spec.encodeMsg m).length ≤ Spec.maxMessage)
+
+/-- Every field with a code of the specification's table carries a value of the table's type. -/
+def SpecMsg.typed (m : SpecMsg) : Bool :=
+  m.fields.all fun f =>
+    match Spec.fieldType f.1 with
+    | some t => f.2.ty == t
+    | none => true
+
+/-- The fields its message type requires are there. -/
+def SpecMsg.hasRequired (m : SpecMsg) : Bool :=
+  (Spec.requiredCodes m.mtype).all fun c => (m.fields.map (·.1)).contains c
+
+/-- The messages of the specification (with basic-typed header fields): sizes, field types, required fields. -/
+def SpecMsg.valid (m : SpecMsg) : Bool := m.sized && m.typed && m.hasRequired
 
 /-- The messages `Spec.encodeMsg` lays out faithfully (every number fits its field); weaker than `valid`:
 no limit on the message type, on the serial being non-zero, or on the 2^26 / 2^27 size limits. -/
